@@ -64,6 +64,11 @@ func Corpus() []*Schema {
 		{Name: "Packed", Fields: append(allKinds("p", 1, "packed", numericKinds), F{"p_enum", 16, "enum:Color", "packed"})},
 		{Name: "OneOfs", Fields: append(allKinds("w", 1, "oneof:which", ScalarKinds), F{"w_enum", 16, "enum:Color", "oneof:which"}, F{"w_msg", 17, "msg:Req", "oneof:which"})},
 		{Name: "Maps", Fields: []F{{"m_req", 1, "msg:Req", "map:string"}, {"m_int", 2, "sint32", "map:int32"}}},
+		// a message with a required field whose own Size() is 0 when nothing is set (no required bytes field),
+		// nested in every position
+		{Name: "ReqS", Fields: []F{{"id", 1, "int32", "req"}, {"note", 2, "string", "opt"}}},
+		{Name: "ReqSNest", Fields: []F{{"may", 1, "msg:ReqS", "opt"}, {"many", 2, "msg:ReqS", "rep"}, {"by", 3, "msg:ReqS", "map:string"},
+			{"one", 4, "msg:ReqS", "oneof:pick"}, {"other", 5, "string", "oneof:pick"}}},
 	}
 	cs = append(cs, p2)
 	// proto2 extensions declared inside a top-level message of the same file (the supported shape)
